@@ -15,6 +15,7 @@ pub mod c12;
 pub mod c14;
 pub mod c15;
 pub mod c16;
+pub mod c17;
 pub mod evt;
 pub mod smoke;
 
@@ -35,6 +36,7 @@ pub fn dispatch(a: &ShardArgs) -> Result<(), String> {
         "c14" => c14::run(a),
         "c15" => c15::run(a),
         "c16" => c16::run(a),
+        "c17" => c17::run(a),
         "smoke" => smoke::run(a),
         other => Err(format!("unknown check {other}")),
     }
